@@ -93,6 +93,99 @@ def run_interp(prog, name, vals):
     return out
 
 
+def run_symbolic(prog, name, vals, max_paths=400):
+    """Run the function on SYMBOLIC inputs of the same length, then select the path whose condition holds for `vals` and
+    evaluate its result terms there: exercises the symbolic branches of the models (decisions, lazily decided orderings,
+    merged terms), which a concrete run never enters."""
+    import z3
+    dom = FPDomain()
+    it = Interp(prog, dom, max_paths=max_paths)
+    fn = prog.find(name)
+    F = z3.Float64()
+    syms = [z3.FP("in%d" % i, F) for i in range(len(vals))]
+
+    def mk(d):
+        cell = Cell(Array([d.sym("in%d" % i) for i in range(len(vals))]))
+        return [SliceRef(cell, (), 0, len(vals))]
+    paths = it.explore(fn, mk)
+    sub = [(s_, z3.FPVal(v, F)) for s_, v in zip(syms, vals)]
+
+    def holds(c):
+        if isinstance(c, bool):
+            return c
+        r = z3.simplify(z3.substitute(c, *sub)) if sub else z3.simplify(c)
+        if z3.is_true(r):
+            return True
+        if z3.is_false(r):
+            return False
+        raise Unsupported("path condition does not evaluate: %s" % r)
+    sel = [p for p in paths if all(holds(c) for c in p.conds)]
+    if len(sel) != 1:
+        raise RuntimeError("%d of %d paths hold for the concrete input (expected exactly one)" % (len(sel), len(paths)))
+    p = sel[0]
+    if p.panic is not None:
+        return "PANIC", len(paths)
+    r = p.result
+    if not isinstance(r, VecV):
+        raise Unsupported("result is %r" % (r,))
+    out = []
+    for x in r.fields:
+        if x.conc is not None:
+            out.append(bits(x.conc))
+            continue
+        t = z3.simplify(z3.substitute(x.t, *sub)) if sub else z3.simplify(x.t)
+        if not z3.is_fp_value(t):
+            t = z3.simplify(z3.fpToIEEEBV(t))
+            if not z3.is_bv_value(t):
+                raise Unsupported("result term does not evaluate: %s" % t)
+            out.append(t.as_long())
+            continue
+        w = z3.simplify(z3.fpToIEEEBV(t))
+        out.append(w.as_long() if z3.is_bv_value(w) else bits(float("nan")))
+    return out, len(paths)
+
+
+def main_symbolic(prefix=""):
+    nat = native()
+    prog = mir()
+    names = sorted({n for (n, _) in nat if n.startswith(prefix)})
+    verdicts = {}
+    for n in names:
+        status, detail, npaths, checked, skipped = "ok", "", 0, 0, 0
+        for i, vals in enumerate(INPUTS):
+            if len(vals) > 3:
+                continue  # symbolic runs fork on every comparison: short inputs only
+            try:
+                got, k = run_symbolic(prog, n, vals, max_paths=300)
+                npaths = max(npaths, k)
+                checked += 1
+            except PathLimit:
+                skipped += 1  # too many branch patterns for this input length: not a verdict about the models
+                continue
+            except Unsupported as ex:
+                if "step limit" in str(ex):
+                    skipped += 1
+                    continue
+                status, detail = "unsupported", ("input %d: " % i) + str(ex)[:110]
+                break
+            except RuntimeError as ex:
+                status, detail = "MISMATCH", ("input %r: " % (vals,)) + str(ex)
+                break
+            except Exception as ex:
+                status, detail = "unsupported", "interpreter error %s: %s" % (type(ex).__name__, str(ex)[:100])
+                break
+            if not same(got, nat[(n, i)]):
+                status = "MISMATCH"
+                detail = "input %r: symbolic run gives %s, native %s" % (vals, got if got == "PANIC" else ["%016x" % w for w in got][:8],
+                                                                          nat[(n, i)] if nat[(n, i)] == "PANIC" else ["%016x" % w for w in nat[(n, i)]][:8])
+                break
+        if status == "ok" and checked == 0:
+            status = "unsupported"
+            detail = "every input exceeded the path limit"
+        verdicts[n] = (status, (detail + " [%d inputs checked, %d skipped for path count, max %d paths]" % (checked, skipped, npaths)).strip())
+    return verdicts
+
+
 def same(a, b):
     if a == "PANIC" or b == "PANIC":
         return a == b
@@ -130,6 +223,19 @@ def main(prefix=""):
 
 
 if __name__ == "__main__":
+    if len(sys.argv) > 1 and sys.argv[1] == "--symbolic":
+        v = main_symbolic(sys.argv[2] if len(sys.argv) > 2 else "")
+        for n, (s_, d) in sorted(v.items()):
+            print("%-34s %-12s %s" % (n, s_, d))
+        cnt = {}
+        for s_, _ in v.values():
+            cnt[s_] = cnt.get(s_, 0) + 1
+        print(cnt)
+        if len(sys.argv) <= 2:
+            import json
+            with open(os.path.join(CRATE, "last_result_symbolic.json"), "w") as fh:
+                json.dump({"functions": len(v), "summary": cnt, "not_ok": {n: list(sd) for n, sd in v.items() if sd[0] != "ok"}}, fh, indent=1)
+        sys.exit(1 if cnt.get("MISMATCH") else 0)
     v = main(sys.argv[1] if len(sys.argv) > 1 else "")
     for n, (s, d) in sorted(v.items()):
         print("%-34s %-12s %s" % (n, s, d))
